@@ -8,8 +8,8 @@
     Sample values are integers (exact sums); the moving aggregate, the group aggregate and the "true division + cast"
     of the mean kernels are parameters, so the statements hold for the mean, the median and every store dtype. *)
 From Coq Require Import ZArith QArith List Bool.
-Require Import SPP.Base.Rt SPP.Gen.Kernels SPP.Gen.C14_stats SPP.Model.C14_filters SPP.Model.C14_pinned.
-Require Import SPP.Proofs.C14_decimate SPP.Proofs.C14_options SPP.Proofs.C14_running SPP.Proofs.C14_detrend SPP.Proofs.C14_pinned.
+Require Import SPP.Base.Rt SPP.Gen.Kernels SPP.Gen.C14_stats SPP.Model.C14_filters SPP.Model.C14_nppad SPP.Model.C14_pinned.
+Require Import SPP.Proofs.C14_decimate SPP.Proofs.C14_callsites SPP.Proofs.C14_options SPP.Proofs.C14_running SPP.Proofs.C14_nppad SPP.Proofs.C14_detrend SPP.Proofs.C14_pinned.
 Import ListNotations.
 Open Scope Z_scope.
 
@@ -46,6 +46,30 @@ Theorem C14_window_interior : forall x n w i, 1 <= w -> w / 2 <= i -> i + (w - 1
   centred_window x n w i = map (fun j => x (i - w / 2 + j)) (zrange w).
 Proof. exact centred_window_interior. Qed.
 Print Assumptions C14_window_interior.
+
+(** Windows wider than the data.  [C14_running_window] above is stated over the closed-form padded array [pad_sym] (index map
+    [sym]) and holds for EVERY w, so also for pads longer than the series.  What NumPy itself does for such pads is different
+    in form: np.pad(mode='symmetric') reflects chunk by chunk, re-reflecting an already reflected buffer until the pad area is
+    full (Model/C14_nppad.v follows numpy/lib/_arraypad_impl.py, _set_reflect_both).  For EVERY n >= 1 and EVERY pad pair
+    pl, pr >= 0 -- shorter than, equal to, or many times the length -- and whatever the uninitialised buffer held, that loop
+    ends with both pads filled and its buffer is the closed form on all pl + n + pr positions. *)
+Theorem C14_numpy_symmetric_pad_every_length : forall junk x n pl pr, 1 <= n -> 0 <= pl -> 0 <= pr ->
+  snd (fst (np_pad_symmetric junk x n pl pr)) = 0 /\ snd (np_pad_symmetric junk x n pl pr) = 0 /\
+  forall q, 0 <= q < pad_len n pl pr -> np_pad_symmetric_array junk x n pl pr q = pad_sym x n pl q.
+Proof. exact np_pad_symmetric_is_sym. Qed.
+Print Assumptions C14_numpy_symmetric_pad_every_length.
+
+(** ... in particular with the pad sizes stats.running_filter computes, for every window width w >= 1 *)
+Theorem C14_running_filter_pad_any_width : forall junk x n w, 1 <= n -> 1 <= w ->
+  forall q, 0 <= q < pad_len n (rf_pad_left w) (rf_pad_right w) ->
+    np_pad_symmetric_array junk x n (rf_pad_left w) (rf_pad_right w) q = pad_sym x n (rf_pad_left w) q.
+Proof. exact running_filter_pad_any_width. Qed.
+Print Assumptions C14_running_filter_pad_any_width.
+
+(** a one-sample series is padded with that sample (NumPy's singleton branch) *)
+Theorem C14_symmetric_pad_singleton : forall x pl q, pad_sym x 1 pl q = x 0.
+Proof. exact pad_sym_singleton. Qed.
+Print Assumptions C14_symmetric_pad_singleton.
 
 (** TimeSeries.deredden: the input minus its running filter *)
 Theorem C14_deredden : forall (agg : list Z -> Z) (move : arr -> Z -> Z -> arr),
@@ -179,6 +203,60 @@ Theorem C14_block_downsample : forall agg x nchans nsamps ff tf i j, 1 <= ff -> 
 Proof. exact block_downsample_spec. Qed.
 Print Assumptions C14_block_downsample.
 
+(** shape of the result (nchans / ffactor, nsamps / tfactor), and the incomplete last channel group / time group is never used *)
+Theorem C14_block_downsample_shape : forall nchans nsamps ff tf,
+  (let '(f1, f2) := block_downsample_factors ff tf in
+   let '(s0, _, s2, _) := ds2_shape nchans nsamps f1 f2 in (s0, s2)) = (nchans / ff, nsamps / tf).
+Proof. exact block_downsample_shape. Qed.
+Print Assumptions C14_block_downsample_shape.
+
+Theorem C14_block_downsample_remainder_dropped : forall agg x x' nchans nsamps ff tf i j, 1 <= ff -> 1 <= tf -> 0 <= nsamps ->
+  0 <= i < nchans / ff -> 0 <= j < nsamps / tf ->
+  (forall r c, 0 <= r < nchans / ff * ff -> 0 <= c < nsamps / tf * tf -> x (nsamps * r + c) = x' (nsamps * r + c)) ->
+  block_downsample_model agg x nchans nsamps ff tf i j = block_downsample_model agg x' nchans nsamps ff tf i j.
+Proof. exact block_downsample_ignores_remainder. Qed.
+Print Assumptions C14_block_downsample_remainder_dropped.
+
+(** * TimeSeries.downsample: call site (regenerated from timeseries.py) -> stats.downsample_1d -> mean kernel / NumPy median path *)
+
+(** accepted exactly for 1 <= factor <= nsamples *)
+Theorem C14_timeseries_downsample_accepts : forall n f, 1 <= n -> (ts_downsample_rejects n f = false <-> 1 <= f <= n).
+Proof. exact ts_downsample_accepts. Qed.
+Print Assumptions C14_timeseries_downsample_accepts.
+
+(** mean: the result has nsamples / factor samples, sample k is divcast(sum of x[k f .. k f + f), f), nothing else of the fresh
+    buffer is written; the `factor == 1 -> return self` shortcut agrees with this because the mean of one sample is that sample *)
+Theorem C14_timeseries_downsample_mean : forall divcast n junk x f, (forall t, divcast t 1 = t) -> 1 <= f <= n ->
+  ts_downsample_rejects n f = false /\ (ts_downsample_len n f = n / f) /\
+  (forall k, 0 <= k < n / f -> ts_downsample_mean_model divcast n junk x f k = divcast (sumZ (group1 x f k)) f) /\
+  (f <> 1 -> forall k, ~ 0 <= k < n / f -> ts_downsample_mean_model divcast n junk x f k = junk k).
+Proof. exact ts_downsample_mean_spec. Qed.
+Print Assumptions C14_timeseries_downsample_mean.
+
+(** median (any aggregate that maps a one-sample group to that sample) *)
+Theorem C14_timeseries_downsample_numpy : forall agg n x f, (forall v, agg [v] = v) -> 1 <= f <= n ->
+  (ts_downsample_len n f = n / f) /\ forall i, ts_downsample_median_model agg x n f i = agg (group1 x f i).
+Proof. exact ts_downsample_median_spec. Qed.
+Print Assumptions C14_timeseries_downsample_numpy.
+
+(** the trailing partial group x[(n/f) f ..] is dropped: it cannot influence any sample of the result, whichever method *)
+Theorem C14_timeseries_downsample_remainder_dropped : forall divcast agg n junk x x' f,
+  (forall t, divcast t 1 = t) -> (forall v, agg [v] = v) -> 1 <= f <= n ->
+  (forall t, 0 <= t < n / f * f -> x t = x' t) ->
+  forall k, 0 <= k < n / f ->
+    ts_downsample_mean_model divcast n junk x f k = ts_downsample_mean_model divcast n junk x' f k /\
+    ts_downsample_median_model agg x n f k = ts_downsample_median_model agg x' n f k.
+Proof. exact ts_downsample_ignores_remainder. Qed.
+Print Assumptions C14_timeseries_downsample_remainder_dropped.
+
+(** factor 1 is the identity, for every length and every hook *)
+Theorem C14_timeseries_downsample_factor1 : forall divcast agg n junk x,
+  ts_downsample_len n 1 = n /\
+  (forall k, ts_downsample_mean_model divcast n junk x 1 k = x k) /\
+  (forall k, ts_downsample_median_model agg x n 1 k = x k).
+Proof. exact ts_downsample_factor1. Qed.
+Print Assumptions C14_timeseries_downsample_factor1.
+
 (** * Linear detrending (exact arithmetic; float rounding is not modelled) *)
 
 (** for every length m >= 1 the output satisfies both normal equations of the straight-line fit ... *)
@@ -243,6 +321,33 @@ Example C14_decimate_example :
   ds1_rejects 7 3 = false /\ ds1_rejects 7 8 = true /\ ds2f_rejects 15 2 2 3 5 = false /\
   ds2_model sumZ (of_list [1; 3; 5; 7; 100;  5; 7; 9; 11; 100;  100; 100; 100; 100; 100]) 3 5 2 2 0 1 = 32 /\
   block_downsample_model sumZ (of_list [1; 2; 3; 4; 5; 6]) 2 3 2 1 0 2 = 9.
+Proof. vm_compute. repeat split; reflexivity. Qed.
+
+(** pads (8, 7) around 3 samples: NumPy's loop needs three steps (after the first, 5 and 4 positions are still to fill; after
+    the second, 0 and 0 only because the chunk grew to 9), the buffer is np.pad([1, 2, 3], (8, 7), 'symmetric') and no
+    uninitialised (-7) position is left; a window of 16 on 3 samples gives exactly these pads *)
+Example C14_numpy_symmetric_pad_example :
+  to_list 18 (np_pad_symmetric_array (fun _ => -7) (of_list [1; 2; 3]) 3 8 7) = [2; 1; 1; 2; 3; 3; 2; 1; 1; 2; 3; 3; 2; 1; 1; 2; 3; 3] /\
+  (let '(_, lp, rp) := np_reflect_step 3 18 (np_pad_init (fun _ => -7) (of_list [1; 2; 3]) 3 8, 8, 7) in (lp, rp)) = (5, 4) /\
+  to_list 18 (pad_sym (of_list [1; 2; 3]) 3 8) = [2; 1; 1; 2; 3; 3; 2; 1; 1; 2; 3; 3; 2; 1; 1; 2; 3; 3] /\
+  (rf_pad_left 16, rf_pad_right 16) = (8, 7) /\
+  to_list 6 (np_pad_symmetric_array (fun _ => -7) (of_list [5]) 1 2 3) = [5; 5; 5; 5; 5; 5].
+Proof. vm_compute. repeat split; reflexivity. Qed.
+
+(** TimeSeries.downsample: the hypotheses on the hooks are satisfiable (floor division / exact numerator, sum), and the model
+    on a concrete 7-sample series: factor 3 -> two samples and an untouched buffer, factor 1 -> the series, factor 7 -> one
+    sample, factors 0 and 8 refused; the block model on a 3 x 5 block by (2, 2) has shape (1, 2) *)
+Example C14_timeseries_downsample_hooks : (forall t, Z.div t 1 = t) /\ (forall t, divcast_num t 1 = t) /\ (forall v, sumZ [v] = v).
+Proof. exact ts_hooks_satisfiable. Qed.
+
+Example C14_timeseries_downsample_example :
+  to_list 4 (ts_downsample_mean_model Z.div 7 (fun _ => -1) (of_list [1; 2; 3; 4; 5; 6; 100]) 3) = [2; 5; -1; -1] /\
+  to_list 7 (ts_downsample_mean_model Z.div 7 (fun _ => -1) (of_list [1; 2; 3; 4; 5; 6; 100]) 1) = [1; 2; 3; 4; 5; 6; 100] /\
+  to_list 2 (ts_downsample_mean_model Z.div 7 (fun _ => -1) (of_list [1; 2; 3; 4; 5; 6; 100]) 7) = [17; -1] /\
+  to_list 2 (ts_downsample_median_model sumZ (of_list [1; 2; 3; 4; 5; 6; 100]) 7 3) = [6; 15] /\
+  ts_downsample_len 7 3 = 2 /\ ts_downsample_len 7 1 = 7 /\
+  ts_downsample_rejects 7 0 = true /\ ts_downsample_rejects 7 8 = true /\ ts_downsample_rejects 7 7 = false /\ ts_downsample_rejects 7 1 = false /\
+  (let '(f1, f2) := block_downsample_factors 2 2 in let '(s0, _, s2, _) := ds2_shape 3 5 f1 f2 in (s0, s2)) = (1, 2).
 Proof. vm_compute. repeat split; reflexivity. Qed.
 
 (** detrending [1; 2; 4] leaves [1/6; -1/3; 1/6] *)
